@@ -613,7 +613,13 @@ class ProgGen:
             lab = rng.choice(planned)
             cond = ("bin", rng.choice([">", "<", ">="]), ("var", 0, [lab]), num(rng.choice([0, 1, 2, 4, 8, 16, 32])))
             node = ("const", flag, 0, cond)
-            if rng.random() < 0.6:
+            r = rng.random()
+            globals_at = [k for k, it in enumerate(items) if it[0] == "label" and it[2] == 0]
+            if r < 0.4 and globals_at:
+                # between its uses and the label it depends on: the constant then lags the label by one pass and its users
+                # lag it by another (inserted right before a global label, so no local label changes parent)
+                items.insert(rng.choice(globals_at), node)
+            elif r < 0.75:
                 items.append(node)
             else:
                 items.insert(0, node)
